@@ -189,4 +189,21 @@ CHECKS = {
                         "'at the deadline' (cancel attempt no later than the first timer expiry after the deadline) is decided by the "
                         "monitor on implementation histories; its safety skeleton is proved on the model"],
     },
+    "C07": {
+        "module": "p_c07",
+        "gen_lemmas": ["throttled_spec", "admission_spec", "loop_wait_spec", "eval_throttle_raise", "block_ready_true"],
+        "rule": "seeded random scenarios (count: static 0/1/2/3/None or a scripted callable changing over time, returning None or "
+                "raising; blocking and non-blocking mode; 1-3 submitter threads x 1-3 submits with virtual sleeps; 0-2 cancel() "
+                "calls per future from separate threads at scripted delays; optional shutdown(); delegate futures completed by "
+                "one environment thread each at scripted virtual times, inline/sync, failing, or never; 0-65 s of idle tail so the "
+                "2 s / 30 s fallback waits play out) x {random, sticky, PCT} schedules under a weak-fairness wrapper for the "
+                "busy-wait of blocking submitters; every implementation history is replayed event by event on Model/Throttle.v "
+                "(extracted); distinct = distinct event traces; non-trivial = a preemption occurred and the admission loop "
+                "throttled with work queued or a blocking submit parked",
+        "assumptions": ["delegate executor, completion of its futures, the count callable's answers and the clock are environment",
+                        "instrumentation from outside: AtomicInt.value reads and deque.popleft are logged (both are unlocked/racy reads "
+                        "or writes another thread's unlocked read can see); the hand-over thread logs its start",
+                        "user done-callbacks on ThrottleFutures, environment-side cancellation of delegate futures and garbage "
+                        "collection of the executor are outside the scenario family"],
+    },
 }
